@@ -161,8 +161,13 @@ test_sequence = [
     (
         # ops_set
         memcpy_ops,
-        # incompatible_pack_flags
-        PassFlags.Cpu | PassFlags.MemoryOnly | PassFlags.Mac | PassFlags.Main | PassFlags.PostFusingLimited,
+        # incompatible_pack_flags (a DMA cannot apply an activation function, so no post ops either)
+        PassFlags.Cpu
+        | PassFlags.MemoryOnly
+        | PassFlags.Mac
+        | PassFlags.Main
+        | PassFlags.Post
+        | PassFlags.PostFusingLimited,
         # flags_to_set
         PassFlags.Npu | PassFlags.Memcpy | PassFlags.Main,
         # flags_to_clear
